@@ -16,9 +16,9 @@
      net/http      timeoutHandler.ServeHTTP: `for k, vv := range tw.h { dst[k] = vv }`   (server.go:3649-3701)
      net/http/httputil ReverseProxy.ServeHTTP: Got1xxResponse hook (copyHeader; WriteHeader; clear(h)),
                    removeHopByHopHeaders, modifyResponse, copyHeader (append), Trailer announcement,
-                   copy of trailers into the writer's header map after the body   (reverseproxy.go:440-552,576-592)
-     net/url       URL.String, EscapedPath, escape/shouldEscape (encodeHost, encodePath)  (url.go:102-177,286-340,810-880)
-     net           SplitHostPort                                                 (ipsock.go:160-212)
+                   copy of trailers into the writer's header map after the body   (reverseproxy.go:281-287,462-478,499-552,577-592)
+     net/url       URL.String, EscapedPath, escape/shouldEscape (encodeHost, encodePath)  (url.go:102-177,286-340,718-731,829-890)
+     net           SplitHostPort                                                 (ipsock.go:165-216)
 
    A header map [hdr A] is an association list from map key to value list with unique keys
    (http.Header); [hget k h] is Go's [h[k]].
